@@ -875,6 +875,11 @@ func (f *fn) aliasCheck(lhsName string, rhs ast.Expr, e *env) {
 			}
 		}
 		return
+	case *ast.CallExpr: // `ys := append(xs, …)` may share the backing array of xs: no index writes through ys
+		if isIdent(r.Fun, "append") && lhsName != "" && f.idxWritten[lhsName] {
+			f.fail(rhs, "%s is written by index and may share the backing array of the appended slice (aliasing)", lhsName)
+		}
+		return
 	default:
 		return
 	}
